@@ -212,6 +212,36 @@ def run_property(ctx, prop, unary, binary, ternary, rule):
             ar = rng.randint(3, 5)
         ps = [rng.choice(pool) for _ in range(ar)]
         rc.append({"op": op, "srcs": [p[0] for p in ps], "args": [p[1] for p in ps], "text": "(%s %s)" % (op, " ".join(p[0] for p in ps))})
+    # numbers that are distinct but close: neighbouring ratios whose cross products exceed 32 bits, ratios next to their own
+    # binary32 image, integers around 2^24 .. 2^31 next to reals - every comparison, both orders, and chains
+    cmpops = [o for o in binary if o in ("=", "<", ">", "<=", ">=", "max", "min", "eqv?")]
+    if cmpops:
+        pairs = []
+        for _ in range(60 if tier == "quick" else 600):
+            k = rng.random()
+            if k < 0.4:
+                m = rng.choice([rng.randint(46341, 70000), rng.randint(70000, 2**31 - 3), 65536, 65535, 46341, 2**31 - 3])
+                sgn = rng.choice(["", "-"])
+                pairs.append(("%s%d/%d" % (sgn, m + 1, m), "%s%d/%d" % (sgn, m + 2, m + 1)))
+            elif k < 0.6:
+                d = rng.choice([2, 3, 5, 7, 9, 11])
+                a = rng.choice([2**31 - 1, 2**31 - 3, rng.randint(2**30, 2**31 - 1)])
+                pairs.append(("%d/%d" % (a, d), "%d/%d" % (a - rng.choice([1, 2]), d)))
+            elif k < 0.8:
+                a = rng.choice([2**24 + 1, 2**24 + 3, 2**31 - 1, rng.randint(2**24, 2**31 - 1)])
+                pairs.append((str(a), "%d.0" % (a + rng.choice([-1, 0, 1, 2]))))
+            else:
+                m = rng.randint(3, 2**31 - 1); d = rng.randint(2, 2**31 - 1)
+                pairs.append(("%d/%d" % (m, d), "%.9g" % (m / d)))
+        nsrcs = sorted({x for p_ in pairs for x in p_})
+        nvals, _ = operand_values(ctx, nsrcs, "near-operands")
+        val = {s_: v for s_, v in zip(nsrcs, nvals) if v is not None}
+        for a, b in pairs:
+            if a not in val or b not in val:
+                continue
+            for op in cmpops:
+                for t in ((a, b), (b, a)) + (((a, b, a), (b, a, b), (a, a, b), (b, b, a)) if op in ternary else ()):
+                    rc.append({"op": op, "srcs": list(t), "args": [val[x] for x in t], "text": "(%s %s)" % (op, " ".join(t))})
     bad, _ = validate_cases(ctx, rc, "rand-cases")
     report(ctx, prop, bad, "random operands")
     for c in rc:
